@@ -319,6 +319,16 @@ func Gen(w *bufio.Writer, seed uint64, tier string) {
 			fmt.Fprintf(w, "C09 transform %s %s %d\n", t[0], t[1], p)
 		}
 	}
+	// transforms that ship option files with the upload: every GetReader must yield the same stream (a retry or the 406/415
+	// fallback reads it again)
+	for _, fl := range []string{"-", "entitlements=@<plist><dict/></plist>", "info-plist=@<plist><dict><key>CFBundleIdentifier</key><string>x</string></dict></plist>",
+		"entitlements=@<plist><dict/></plist>;info-plist=@<plist/>;resources=@<plist><dict/></plist>"} {
+		for _, p := range []int{1, 600} {
+			fmt.Fprintf(w, "C09 transform mach-o slimfile.app/dummyapp %d %s\n", p, fl)
+		}
+	}
+	fmt.Fprintf(w, "C09 transform dmg dummy.dmg 100 -\n")
+	fmt.Fprintf(w, "C09 transform pgp hello.ps1 10 clearsign=true\n")
 	// input through a pipe (relic sign -f -), sizes around the PGP transform's 10,000,000-byte limit: refusal or the whole input
 	for _, sz := range []int{0, 1, 4096, 65537, 9999999, 10000000, 10000001, 10004096} {
 		for _, fl := range []string{"-", "clearsign=true", "inline=true"} {
